@@ -255,7 +255,7 @@ var c10Fields = core.Mon(c10, "fields", func(w *core.W, c *FieldCase) {
 	if c.ErrClass && strings.HasPrefix(full, "ERROR") && strings.HasPrefix(restr, "ERROR") {
 		return
 	}
-	if full != restr && addressSensitive(sc, *c.Data) {
+	if full != restr && addressSensitiveForSure(sc, *c.Data) {
 		w.Skip("address-dependent-output")
 		return
 	}
